@@ -197,7 +197,11 @@ def c05_pipeline(ch, build):
     scns.append(s)
     # handshake: one mutated reply per attempt to open
     for ex, n in enumerate(lens["hs"]):
-        for mu in muts(n):
+        # ... and the BMC sending a SHORTER message with a consistent wrapper (every payload length below the genuine one):
+        # the setup-payload decoders and what newV2Session does with a short AuthCode / ICV see these, a cut datagram
+        # never gets past the wrapper
+        short = ["truncpayload:%d" % k for k in range(n - 16)]
+        for mu in muts(n) + short:
             s = base(70); s["steps"] = [hs.open_step(suites=[su], script=["ok"] * ex + [mu])]; s["hs"] = True
             scns.append(s)
     # in-session command
